@@ -74,12 +74,21 @@ Qed.
 
 (* outcomes: never a panic, and a property of the value *)
 Definition good {A} (P : A -> Prop) (r : pres A) : Prop :=
-  match r with POk a => P a | PPanic => False | _ => True end.
+  match r with POk a => P a | PErr p _ => p <= length re | PPanic => False | _ => True end.
 Lemma good_bind {A C} (PA : A -> Prop) (PC : C -> Prop) (m : pres A) (f : A -> pres C) :
   good PA m -> (forall a, PA a -> good PC (f a)) -> good PC (pbind m f).
 Proof. destruct m; cbn; auto. Qed.
 Lemma good_weaken {A} (P P' : A -> Prop) r : (forall a, P a -> P' a) -> good P r -> good P' r.
 Proof. destruct r; cbn; auto. Qed.
+
+(* closing an error leaf: the reported position is inside the pattern *)
+Ltac ble := repeat match goal with
+  | H : B ?k |- _ => lazymatch goal with _ : k <= length re |- _ => fail | _ => pose proof (B_le k H) end
+  | H : byte re ?k = Some _ |- _ => lazymatch goal with _ : k < length re |- _ => fail | _ => pose proof (byte_Some_lt k _ H) end
+  end.
+Ltac perr := cbn [good orb andb negb]; ble; lia.
+Ltac triv := first [exact I | perr].
+
 
 (* ---------- list helpers ---------- *)
 Lemma nth_skipn {A} : forall (l : list A) k j, nth_error (skipn k l) j = nth_error l (k + j).
@@ -132,14 +141,14 @@ Qed.
 
 Lemma skip_comment_good : forall fuel ix, good B (skip_comment re fuel ix).
 Proof.
-  induction fuel as [|f IH]; intros ix; [exact I|]. rewrite skip_comment_S.
-  destruct (length re <=? ix); [exact I|]. destruct (byte re ix) as [b|] eqn:E; [|apply IH].
+  induction fuel as [|f IH]; intros ix; [triv|]. rewrite skip_comment_S.
+  destruct (length re <=? ix); [triv|]. destruct (byte re ix) as [b|] eqn:E; [|apply IH].
   destruct (Nat.eqb_spec b 41) as [->|H1]; [cbn; eapply asc1; [exact E|lia]|]. destruct (b =? 92); apply IH.
 Qed.
 
 Lemma ows_good : forall fuel fl ix, B ix -> good B (optional_whitespace re fuel fl ix).
 Proof.
-  induction fuel as [|f IH]; intros fl ix Hb; [exact I|]. cbn [optional_whitespace].
+  induction fuel as [|f IH]; intros fl ix Hb; [triv|]. cbn [optional_whitespace].
   destruct (Nat.eqb_spec ix (length re)) as [->|Hne]; [exact Hb|].
   pose proof (B_le _ Hb) as Hle. destruct (byte_lt ix ltac:(lia)) as (b & Eb). rewrite Eb.
   destruct ((b =? 35) && f_space fl).
@@ -218,14 +227,14 @@ Lemma named_backref_good st ix o c ar mk : B ix -> Forall (fun b => b < 128) o -
 Proof.
   intros Hb Ho Hc Hmk. unfold parse_named_backref. pose proof (B_le _ Hb) as Hle.
   destruct (Nat.ltb_spec (length re) ix); [lia|].
-  destruct (parse_id (from re ix) o c ar) as [[id skip]|] eqn:E; [|exact I].
-  destruct (parse_group_ref st id) as [g|]; [|exact I]. destruct (N.ltb g _); [|exact I].
+  destruct (parse_id (from re ix) o c ar) as [[id skip]|] eqn:E; [|triv].
+  destruct (parse_group_ref st id) as [g|]; [|triv]. destruct (N.ltb g _); [|triv].
   destruct (parse_id_bnd _ _ _ _ _ _ Hb Ho Hc E) as [H1 _]. cbn. split; [exact H1|apply Hmk].
 Qed.
-Lemma numbered_backref_good st ix mk : (forall g, wfe (mk g)) -> good P3ok (parse_numbered_backref re st ix mk).
+Lemma numbered_backref_good st ix mk : ix <= length re -> (forall g, wfe (mk g)) -> good P3ok (parse_numbered_backref re st ix mk).
 Proof.
-  intros Hmk. unfold parse_numbered_backref. destruct (parse_decimal re ix) as [[e g]|] eqn:E; [|exact I].
-  destruct (N.ltb g _); [|exact I]. destruct (parse_decimal_bnd _ _ _ E) as [H1 _]. cbn. split; [exact H1|apply Hmk].
+  intros Hix Hmk. unfold parse_numbered_backref. destruct (parse_decimal re ix) as [[e g]|] eqn:E; [|triv].
+  destruct (N.ltb g _); [|triv]. destruct (parse_decimal_bnd _ _ _ E) as [H1 _]. cbn. split; [exact H1|apply Hmk].
 Qed.
 
 Lemma hex_ascii b : is_hex_digit b = true -> b < 128.
@@ -234,13 +243,13 @@ Proof.
   apply andb_true_iff in H as [_ H]. apply Nat.leb_le in H. unfold or32 in H. destruct (Nat.testbit b 5); lia.
 Qed.
 
-Lemma hex_braced_good : forall fuel sh eh ep, eh <= length re -> good (fun j => B (j + 1)) (hex_braced re fuel sh eh ep).
+Lemma hex_braced_good : forall fuel sh eh ep, eh <= length re -> ep <= length re -> good (fun j => B (j + 1)) (hex_braced re fuel sh eh ep).
 Proof.
-  induction fuel as [|f IH]; intros sh eh ep Hle; [exact I|]. cbn [hex_braced].
-  destruct (Nat.eqb_spec eh (length re)); [exact I|]. destruct (byte_lt eh ltac:(lia)) as (b & Eb). rewrite Eb.
+  induction fuel as [|f IH]; intros sh eh ep Hle Hep; [triv|]. cbn [hex_braced].
+  destruct (Nat.eqb_spec eh (length re)); [triv|]. destruct (byte_lt eh ltac:(lia)) as (b & Eb). rewrite Eb.
   destruct ((sh <? eh) && (b =? 125)) eqn:E1.
   - cbn. apply andb_true_iff in E1 as [_ E1]. apply Nat.eqb_eq in E1. subst. eapply asc1; [exact Eb|lia].
-  - destruct (is_hex_digit b && (eh <? sh + 8)); [|exact I]. apply IH. lia.
+  - destruct (is_hex_digit b && (eh <? sh + 8)); [|triv]. apply IH; lia.
 Qed.
 
 Lemma nth_firstn_lt {A} : forall n (l : list A) k, k < n -> nth_error (firstn n l) k = nth_error l k.
@@ -251,7 +260,7 @@ Proof. intros Hk. unfold sub, byte. rewrite nth_firstn_lt by auto. apply nth_ski
 Lemma parse_hex_good fl ix d : ix <= length re -> 0 < d ->
   good (fun r : nat * expr => B (fst r) /\ wfe (snd r)) (parse_hex re fl ix d).
 Proof.
-  intros Hle Hd. unfold parse_hex. destruct (Nat.leb_spec (length re) ix); [exact I|].
+  intros Hle Hd. unfold parse_hex. destruct (Nat.leb_spec (length re) ix); [triv|].
   assert (Hfin : forall e ds, B e ->
     good (fun r : nat * expr => B (fst r) /\ wfe (snd r))
       (let cp := hex_value ds 0%N in
@@ -259,7 +268,7 @@ Proof.
        then @PErr (nat * expr) ix PInvalidCodepointValue
        else POk (e, Literal (encode_utf8 cp) (f_casei fl)))).
   { intros e ds He. cbv zeta.
-    destruct ((N.leb 55296 (hex_value ds 0) && N.leb (hex_value ds 0) 57343) || N.ltb 1114111 (hex_value ds 0)) eqn:Eo; [exact I|].
+    destruct ((N.leb 55296 (hex_value ds 0) && N.leb (hex_value ds 0) 57343) || N.ltb 1114111 (hex_value ds 0)) eqn:Eo; [triv|].
     cbn. split; auto. apply wf_char_encode. apply orb_false_iff in Eo as [_ Eo]. now apply N.ltb_ge in Eo. }
   destruct ((ix + d <=? length re) && forallb is_hex_digit (sub re ix (ix + d))) eqn:E1.
   - apply Hfin. apply andb_true_iff in E1 as [E1 E2]. apply Nat.leb_le in E1.
@@ -267,15 +276,15 @@ Proof.
     destruct (byte_lt (ix + (d - 1)) ltac:(lia)) as (b & Eb). rewrite Eb in Hn.
     rewrite forallb_forall in E2. pose proof (E2 b (nth_error_In _ _ Hn)) as Hh.
     replace (ix + d) with (ix + (d - 1) + 1) by lia. eapply asc1; eauto. now apply hex_ascii.
-  - destruct (byte_is re ix 123); [|exact I].
+  - destruct (byte_is re ix 123); [|triv].
     eapply good_bind; [apply hex_braced_good; lia|]. intros eh Heh. now apply Hfin.
 Qed.
 
-Lemma uniname_end_good : forall fuel e ep, B e -> good B (uniname_end re fuel e ep).
+Lemma uniname_end_good : forall fuel e ep, B e -> ep <= length re -> good B (uniname_end re fuel e ep).
 Proof.
-  induction fuel as [|f IH]; intros e ep He; [exact I|]. cbn [uniname_end]. pose proof (B_le _ He).
-  destruct (Nat.eqb_spec e (length re)); [exact I|]. destruct (byte_lt e ltac:(lia)) as (b & Eb). rewrite Eb.
-  destruct (Nat.eqb_spec b 125) as [->|]; [cbn; eapply asc1; [exact Eb|lia]|]. apply IH. now apply (step e b He Eb).
+  induction fuel as [|f IH]; intros e ep He Hep; [triv|]. cbn [uniname_end]. pose proof (B_le _ He).
+  destruct (Nat.eqb_spec e (length re)); [triv|]. destruct (byte_lt e ltac:(lia)) as (b & Eb). rewrite Eb.
+  destruct (Nat.eqb_spec b 125) as [->|]; [cbn; eapply asc1; [exact Eb|lia]|]. apply IH; [now apply (step e b He Eb)|exact Hep].
 Qed.
 
 (* ---------- escapes ---------- *)
@@ -288,24 +297,24 @@ Qed.
 Lemma parse_escape_good st ix ic : byte re ix = Some 92 -> good P3ok (parse_escape re st ix ic).
 Proof.
   intros H92. destruct (asc ix 92 H92 ltac:(lia)) as [Bix Bix1].
-  unfold parse_escape. destruct (byte re (ix + 1)) as [b|] eqn:Eb; [|exact I].
+  unfold parse_escape. destruct (byte re (ix + 1)) as [b|] eqn:Eb; [|triv].
   destruct (step (ix + 1) b Bix1 Eb) as (Be & Hele & Hwc).
   set (e := ix + 1 + cp_len b) in *. cbv zeta.
-  assert (Hnb : forall mk, (forall g, wfe (mk g)) -> forall k, good P3ok (parse_numbered_backref re st k mk))
+  assert (Hnb : forall mk, (forall g, wfe (mk g)) -> forall k, k <= length re -> good P3ok (parse_numbered_backref re st k mk))
     by (intros; now apply numbered_backref_good).
   assert (Hna : forall mk o c, (forall g, wfe (mk g)) -> Forall (fun b => b < 128) o -> Forall (fun b => b < 128) c ->
             good P3ok (parse_named_backref re st e o c true mk)) by (intros; now apply named_backref_good).
   repeat match goal with
-  | |- good _ (parse_numbered_backref _ _ _ _) => apply Hnb; intros; exact I
-  | |- good _ (parse_named_backref _ _ _ _ _ _ _) => apply Hna; [intros; exact I|repeat constructor; lia|repeat constructor; lia]
+  | |- good _ (parse_numbered_backref _ _ _ _) => apply Hnb; [intros; exact I|ble; lia]
+  | |- good _ (parse_named_backref _ _ _ _ _ _ _) => apply Hna; [intros; triv|repeat constructor; lia|repeat constructor; lia]
   | |- good _ (pbind (parse_hex _ _ _ _) _) =>
       eapply good_bind; [apply parse_hex_good; lia|intros [j x] [Hj Hx]; cbn; split; assumption]
-  | |- good _ (PErr _ _) => exact I
+  | |- good _ (PErr _ _) => perr
   | |- good _ (if ?c then _ else _) => destruct c eqn:?
   | |- good _ (match find ?f ?t with _ => _ end) => destruct (find f t) eqn:?
   | |- good _ (match byte re e with _ => _ end) => destruct (byte re e) eqn:?
   end.
-  all: try (cbn; split; [assumption|first [exact I|reflexivity|assumption]]; fail).
+  all: try (cbn; split; [assumption|first [triv|reflexivity|assumption]]; fail).
   all: try (exfalso; match goal with H : (length re <? _) = true |- _ => apply Nat.ltb_lt in H; lia end).
   (* the three byte-None panics: e < |re| there *)
   all: try (exfalso; match goal with
@@ -318,7 +327,7 @@ Proof.
   - (* \p{..} *)
     match goal with E : byte re ?y = Some ?n, Hy : B ?y |- _ => destruct (step y n Hy E) as (Be2 & Hle2 & _) end.
     eapply (good_bind B).
-    + match goal with |- good _ (if ?c then _ else _) => destruct c end; [now apply uniname_end_good|exact Be2].
+    + match goal with |- good _ (if ?c then _ else _) => destruct c end; [apply uniname_end_good; [exact Be2|ble; lia]|exact Be2].
     + intros e3 He3. pose proof (B_le _ He3). destruct (Nat.ltb_spec (length re) e3); [lia|]. cbn. split; [exact He3|reflexivity].
   - (* the escape table *) cbn. split; [assumption|]. eapply table_wf; eauto.
 Qed.
@@ -330,11 +339,11 @@ Proof. unfold byte_is. destruct (byte re k) as [x|]; [|discriminate]. intros H. 
 Lemma class_loop_good : forall fuel st ix nest cls, B ix -> 1 <= nest ->
   good (fun r : nat * list nat * pst => B (fst (fst r) + 1)) (class_loop re fuel st ix nest cls).
 Proof.
-  induction fuel as [|f IH]; intros st ix nest cls Hb Hn; [exact I|]. cbn [class_loop]. pose proof (B_le _ Hb).
-  destruct (Nat.eqb_spec ix (length re)); [exact I|]. destruct (byte_lt ix ltac:(lia)) as (b & Eb). rewrite Eb.
+  induction fuel as [|f IH]; intros st ix nest cls Hb Hn; [triv|]. cbn [class_loop]. pose proof (B_le _ Hb).
+  destruct (Nat.eqb_spec ix (length re)); [triv|]. destruct (byte_lt ix ltac:(lia)) as (b & Eb). rewrite Eb.
   destruct (Nat.eqb_spec b 92) as [->|N92].
   { eapply good_bind; [now apply parse_escape_good|]. intros [[e x] st'] [He Hx]. cbn [fst snd] in *.
-    destruct x; try exact I; apply IH; auto. }
+    destruct x; try triv; apply IH; auto. }
   destruct (Nat.eqb_spec b 91) as [->|N91]; [apply IH; [eapply asc1; [exact Eb|lia]|lia]|].
   destruct (Nat.eqb_spec b 93) as [->|N93].
   { destruct nest as [|[|nn]]; [lia| |apply IH; [eapply asc1; [exact Eb|lia]|lia]]. cbn. eapply asc1; [exact Eb|lia]. }
@@ -359,27 +368,27 @@ Lemma parse_repeat_good fl ix : byte re ix = Some 123 ->
 Proof.
   intros H123. pose proof (asc1 ix 123 H123 ltac:(lia)) as B1. unfold parse_repeat. cbv zeta.
   eapply good_bind; [apply ows_good; exact B1|]. intros ix1 Hix1.
-  destruct (ix1 =? length re); [exact I|].
+  destruct (ix1 =? length re); [triv|].
   eapply (good_bind (fun r : N * nat => B (snd r))).
-  { destruct (byte_is re ix1 44); [exact Hix1|]. destruct (parse_decimal re ix1) as [[nx lo]|] eqn:E; [|exact I].
+  { destruct (byte_is re ix1 44); [exact Hix1|]. destruct (parse_decimal re ix1) as [[nx lo]|] eqn:E; [|triv].
     cbn. now apply (parse_decimal_bnd _ _ _ E). }
   intros [lo e1] He1. cbn [snd] in He1.
   eapply good_bind; [apply ows_good; exact He1|]. intros ix2 Hix2.
-  destruct (ix2 =? length re); [exact I|].
+  destruct (ix2 =? length re); [triv|].
   eapply (good_bind (fun r : N * nat => B (snd r))).
-  { destruct (byte_is re ix2 125) eqn:E125; [exact Hix2|]. destruct (byte_is re ix2 44) eqn:E44; [|exact I].
+  { destruct (byte_is re ix2 125) eqn:E125; [exact Hix2|]. destruct (byte_is re ix2 44) eqn:E44; [|triv].
     apply byte_is_true in E44. eapply good_bind; [apply ows_good; eapply asc1; [exact E44|lia]|]. intros e2 He2.
     destruct (parse_decimal re e2) as [[nx hi]|] eqn:E; [|exact He2]. cbn. now apply (parse_decimal_bnd _ _ _ E). }
   intros [hi e3] He3. cbn [snd] in He3.
   eapply good_bind; [apply ows_good; exact He3|]. intros ix3 Hix3.
-  destruct (ix3 =? length re); [exact I|]. cbn [orb]. destruct (byte_is re ix3 125) eqn:E; [|exact I]. cbn [negb].
+  destruct (ix3 =? length re); [triv|]. cbn [orb]. destruct (byte_is re ix3 125) eqn:E; [|triv]. cbn [negb].
   apply byte_is_true in E. cbn. split; [eapply asc1; [exact E|lia]|lia].
 Qed.
 
 Lemma close_paren_good fl ix : B ix -> good B (check_for_close_paren re fl ix).
 Proof.
   intros Hb. unfold check_for_close_paren. eapply good_bind; [apply ows_good; exact Hb|]. intros ix1 H1.
-  destruct (ix1 =? length re); [exact I|]. destruct (byte_is re ix1 41) eqn:E; [|exact I]. cbn [negb].
+  destruct (ix1 =? length re); [triv|]. destruct (byte_is re ix1 41) eqn:E; [|triv]. cbn [negb].
   apply byte_is_true in E. cbn. eapply asc1; [exact E|lia].
 Qed.
 
@@ -399,7 +408,7 @@ Definition T_branch f := forall st ix d ch, B ix -> Forall wfe ch -> good P3ok (
 Definition T_piece f := forall st ix d, B ix -> good P3ok (parse_piece re f st ix d).
 Definition T_atom f := forall st ix d, B ix -> good P3ok (parse_atom re f st ix d).
 Definition T_group f := forall st ix d, byte re ix = Some 40 -> good P3ok (parse_group re f st ix d).
-Definition T_flags f := forall st ixq d start ix neg old, B ix -> good P3ok (parse_flags re f st ixq d start ix neg old).
+Definition T_flags f := forall st ixq d start ix neg old, B ix -> start <= length re -> good P3ok (parse_flags re f st ixq d start ix neg old).
 Definition T_cond f := forall st ix d, B ix -> good P3ok (parse_conditional re f st ix d).
 
 Lemma wfe_of_forall l : Forall wfe l -> wfe_list l. Proof. induction 1; cbn; auto. Qed.
@@ -417,13 +426,13 @@ Hypothesis I_flags : T_flags f.
 Hypothesis I_cond : T_cond f.
 
 Ltac bind3 L := eapply (good_bind P3ok); [apply L|intros [[?j ?x] ?s] [?Hj ?Hx]; cbn [fst snd] in *].
-Ltac fin := cbn [good fst snd]; split; [auto|first [exact I|assumption|auto]].
+Ltac fin := cbn [good fst snd]; split; [auto|first [triv|assumption|auto]].
 Ltac bindI L := eapply (good_bind B); [apply L|intros ?j ?Hj].
 
 Lemma stepT_re : T_re (S f).
 Proof.
   intros st ix d Hb. simpl parse_re. bind3 I_branch; auto. bindI ows_good; auto.
-  destruct (byte_is re j0 124); [apply I_alt; auto|]. destruct (_ && _); [exact I|]. fin.
+  destruct (byte_is re j0 124); [apply I_alt; auto|]. destruct (_ && _); [triv|]. fin.
 Qed.
 
 Lemma stepT_alt : T_alt (S f).
@@ -435,7 +444,7 @@ Proof.
 Qed.
 
 Lemma finish_wfe ch : Forall wfe ch -> wfe (match ch with [] => Empty | [c] => c | _ => Concat ch end).
-Proof. intros H. destruct ch as [|c [|c2 r]]; [exact I|now inversion H|]. rewrite wfe_concat. now apply wfe_of_forall. Qed.
+Proof. intros H. destruct ch as [|c [|c2 r]]; [triv|now inversion H|]. rewrite wfe_concat. now apply wfe_of_forall. Qed.
 
 Lemma stepT_branch : T_branch (S f).
 Proof.
@@ -459,7 +468,7 @@ Proof.
      let node := Repeat child lo hi greedy in
      if (ix3 <? length re) && byte_is re ix3 43 then POk (ix3 + 1, AtomicGroup node, st1)
      else POk (ix3, node, st1))).
-  { intros ixq lo hi Hbq. destruct (negb (is_repeatable child)); [exact I|].
+  { intros ixq lo hi Hbq. destruct (negb (is_repeatable child)); [triv|].
     bindI ows_good; auto. rename j into ix2.
     assert (B3 : B (if (ix2 <? length re) && byte_is re ix2 63 then ix2 + 1 else ix2)).
     { destruct ((ix2 <? length re) && byte_is re ix2 63) eqn:E; [|auto]. apply andb_true_iff in E as [_ E].
@@ -474,7 +483,7 @@ Proof.
   destruct (Nat.eqb_spec b 43) as [->|]; [apply Hq; eapply asc1; [exact Eb|lia]|].
   destruct (Nat.eqb_spec b 123) as [->|]; [|fin].
   pose proof (parse_repeat_good (p_flags st1) ix1 Eb) as Hr.
-  destruct (parse_repeat re (p_flags st1) ix1) as [[[nx lo] hi]| | | |]; cbn in Hr; try exact I; try (fin; fail); try contradiction.
+  destruct (parse_repeat re (p_flags st1) ix1) as [[[nx lo] hi]| | | |]; cbn in Hr; try triv; try (fin; fail); try contradiction.
   destruct Hr as [Hr1 Hr2]. cbn [fst] in *. apply Hq. now replace (nx - 1 + 1) with nx by lia.
 Qed.
 
@@ -483,9 +492,9 @@ Proof.
   intros st ix d Hb. simpl parse_atom. bindI ows_good; auto. rename j into ix1. pose proof (B_le _ Hj).
   destruct (Nat.eqb_spec ix1 (length re)); [fin|].
   destruct (byte_lt ix1 ltac:(lia)) as (b & Eb). rewrite Eb.
-  destruct (Nat.eqb_spec b 46) as [->|]; [cbn [good fst snd]; split; [eapply asc1; [exact Eb|lia]|exact I]|].
-  destruct (Nat.eqb_spec b 94) as [->|]; [cbn [good fst snd]; split; [eapply asc1; [exact Eb|lia]|exact I]|].
-  destruct (Nat.eqb_spec b 36) as [->|]; [cbn [good fst snd]; split; [eapply asc1; [exact Eb|lia]|exact I]|].
+  destruct (Nat.eqb_spec b 46) as [->|]; [cbn [good fst snd]; split; [eapply asc1; [exact Eb|lia]|triv]|].
+  destruct (Nat.eqb_spec b 94) as [->|]; [cbn [good fst snd]; split; [eapply asc1; [exact Eb|lia]|triv]|].
+  destruct (Nat.eqb_spec b 36) as [->|]; [cbn [good fst snd]; split; [eapply asc1; [exact Eb|lia]|triv]|].
   destruct (Nat.eqb_spec b 40) as [->|]; [now apply I_group|].
   destruct (Nat.eqb_spec b 92) as [->|]; [now apply parse_escape_good|].
   destruct (_ || _); [fin|].
@@ -497,7 +506,7 @@ Qed.
 Lemma stepT_group : T_group (S f).
 Proof.
   intros st ix d H40. rewrite parse_group_S. cbv zeta.
-  destruct (Consts.MAX_RECURSION <=? d + 1); [exact I|].
+  destruct (Consts.MAX_RECURSION <=? d + 1); [triv|].
   bindI ows_good; [eapply asc1; [exact H40|lia]|]. rename j into ix1.
   assert (Hbody : forall (node : expr -> expr) pos st0, B pos -> (forall c, wfe c -> wfe (node c)) ->
     good P3ok (let! r1 := parse_re re f st0 pos (d + 1) in
@@ -511,55 +520,57 @@ Proof.
   | |- good _ (if starts_with (from re ix1) ?pre then _ else _) => destruct (starts_with (from re ix1) pre) eqn:?
   end.
   all: try (apply Hbody; [eapply Hsw; [eassumption|repeat constructor; lia|simpl; lia]|intros c Hc; cbn [good fst snd]; exact Hc]; fail).
-  all: try (apply named_backref_good; [eapply Hsw; [eassumption|repeat constructor; lia|simpl; lia]|repeat constructor; lia|repeat constructor; lia|intros; exact I]; fail).
+  all: try (apply named_backref_good; [eapply Hsw; [eassumption|repeat constructor; lia|simpl; lia]|repeat constructor; lia|repeat constructor; lia|intros; triv]; fail).
   - (* (?<name> *)
     assert (B1 : B (ix1 + 1)) by (eapply Hsw; [eassumption|repeat constructor; lia|simpl; lia]).
-    destruct (parse_id (from re (ix1 + 1)) [60] [62] false) as [[id skip]|] eqn:E; [|exact I].
+    destruct (parse_id (from re (ix1 + 1)) [60] [62] false) as [[id skip]|] eqn:E; [|triv].
     destruct (parse_id_bnd (ix1 + 1) [60] [62] false id skip B1 ltac:(repeat constructor; lia) ltac:(repeat constructor; lia) E) as [Hs _].
     apply Hbody; [now replace (ix1 + (skip + 1)) with (ix1 + 1 + skip) by lia|]. intros c Hc. destruct (_ =? 2); exact Hc.
   - (* (?P<name> *)
     assert (B2 : B (ix1 + 2)) by (eapply Hsw; [eassumption|repeat constructor; lia|simpl; lia]).
-    destruct (parse_id (from re (ix1 + 2)) [60] [62] false) as [[id skip]|] eqn:E; [|exact I].
+    destruct (parse_id (from re (ix1 + 2)) [60] [62] false) as [[id skip]|] eqn:E; [|triv].
     destruct (parse_id_bnd (ix1 + 2) [60] [62] false id skip B2 ltac:(repeat constructor; lia) ltac:(repeat constructor; lia) E) as [Hs _].
     apply Hbody; [now replace (ix1 + (skip + 2)) with (ix1 + 2 + skip) by lia|]. intros c Hc. destruct (_ =? 2); exact Hc.
   - (* (?( *) apply I_cond. eapply Hsw; [eassumption|repeat constructor; lia|simpl; lia].
-  - (* (?flags *) apply I_flags. eapply Hsw; [eassumption|repeat constructor; lia|simpl; lia].
+  - (* (?flags *)
+    assert (B1 : B (ix1 + 1)) by (eapply Hsw; [eassumption|repeat constructor; lia|simpl; lia]).
+    apply I_flags; [exact B1|ble; lia].
   - (* plain group *) apply Hbody; [now rewrite Nat.add_0_r|]. intros c Hc; exact Hc.
 Qed.
 
 Lemma stepT_flags : T_flags (S f).
 Proof.
-  intros st ixq d start ix neg old Hb. simpl parse_flags. bindI ows_good; auto. rename j into ix1. pose proof (B_le _ Hj).
-  destruct (Nat.eqb_spec ix1 (length re)); [exact I|]. destruct (byte_lt ix1 ltac:(lia)) as (b & Eb). rewrite Eb. cbv zeta.
+  intros st ixq d start ix neg old Hb Hstart. simpl parse_flags. bindI ows_good; auto. rename j into ix1. pose proof (B_le _ Hj).
+  destruct (Nat.eqb_spec ix1 (length re)); [triv|]. destruct (byte_lt ix1 ltac:(lia)) as (b & Eb). rewrite Eb. cbv zeta.
   destruct (step ix1 b Hj Eb) as (_ & Hle & _).
   assert (Hunk : good P3ok (if length re <? ix1 + cp_len b then PPanic else PErr start PUnknownFlag))
-    by (destruct (Nat.ltb_spec (length re) (ix1 + cp_len b)); [lia|exact I]).
+    by (destruct (Nat.ltb_spec (length re) (ix1 + cp_len b)); [lia|triv]).
   destruct ((b =? 105) || (b =? 109) || (b =? 115) || (b =? 85) || (b =? 120)) eqn:Ef.
-  { apply I_flags. eapply asc1; [exact Eb|].
+  { apply I_flags; [|exact Hstart]. eapply asc1; [exact Eb|].
     repeat (apply orb_true_iff in Ef as [Ef|Ef]); apply Nat.eqb_eq in Ef; lia. }
-  destruct (Nat.eqb_spec b 117) as [->|]; [destruct neg; [exact I|apply I_flags; eapply asc1; [exact Eb|lia]]|].
-  destruct (Nat.eqb_spec b 45) as [->|]; [destruct neg; [exact Hunk|apply I_flags; eapply asc1; [exact Eb|lia]]|].
+  destruct (Nat.eqb_spec b 117) as [->|]; [destruct neg; [triv|apply I_flags; [eapply asc1; [exact Eb|lia]|exact Hstart]]|].
+  destruct (Nat.eqb_spec b 45) as [->|]; [destruct neg; [exact Hunk|apply I_flags; [eapply asc1; [exact Eb|lia]|exact Hstart]]|].
   destruct (Nat.eqb_spec b 41) as [->|].
-  { destruct ((ix1 =? start) || neg && (ix1 =? start + 1)); [exact Hunk|]. cbn [good fst snd]. split; [eapply asc1; [exact Eb|lia]|exact I]. }
+  { destruct ((ix1 =? start) || neg && (ix1 =? start + 1)); [exact Hunk|]. cbn [good fst snd]. split; [eapply asc1; [exact Eb|lia]|triv]. }
   destruct (Nat.eqb_spec b 58) as [->|]; [|exact Hunk].
   destruct (neg && (ix1 =? start + 1)); [exact Hunk|].
-  bind3 I_re; [eapply asc1; [exact Eb|lia]|]. destruct (j =? length re); [exact I|].
-  destruct (byte_is re j 41) eqn:E; [|exact I]. cbn [negb]. apply byte_is_true in E. cbn [good fst snd]. split; [eapply asc1; [exact E|lia]|auto].
+  bind3 I_re; [eapply asc1; [exact Eb|lia]|]. destruct (j =? length re); [triv|].
+  destruct (byte_is re j 41) eqn:E; [|triv]. cbn [negb]. apply byte_is_true in E. cbn [good fst snd]. split; [eapply asc1; [exact E|lia]|auto].
 Qed.
 
 Lemma stepT_cond : T_cond (S f).
 Proof.
   intros st ix d Hb. simpl parse_conditional. pose proof (B_le _ Hb).
-  destruct (Nat.leb_spec (length re) ix); [exact I|]. destruct (byte_lt ix ltac:(lia)) as (b & Eb). rewrite Eb.
+  destruct (Nat.leb_spec (length re) ix); [triv|]. destruct (byte_lt ix ltac:(lia)) as (b & Eb). rewrite Eb.
   eapply (good_bind P3ok).
-  { destruct (is_digit b); [apply numbered_backref_good; intros; exact I|].
-    destruct (b =? 39); [apply named_backref_good; auto; try (repeat constructor; lia); intros; exact I|].
-    destruct (b =? 60); [apply named_backref_good; auto; try (repeat constructor; lia); intros; exact I|].
+  { destruct (is_digit b); [apply numbered_backref_good; intros; triv|].
+    destruct (b =? 39); [apply named_backref_good; auto; try (repeat constructor; lia); intros; triv|].
+    destruct (b =? 60); [apply named_backref_good; auto; try (repeat constructor; lia); intros; triv|].
     now apply I_re. }
   intros [[nx0 condition] st1] [H1 H2]. cbn [fst snd] in *.
   bindI close_paren_good; auto. rename j into nx. bind3 I_re; auto. rename j into e, x into child, s into st2.
   destruct (e =? nx).
-  - destruct condition; try exact I. bindI close_paren_good; auto. fin.
+  - destruct condition; try triv. bindI close_paren_good; auto. fin.
   - set (inner := match condition with Backref g => BackrefExistsCondition g | _ => condition end).
     assert (Hin : wfe inner) by (unfold inner; destruct condition; auto).
     assert (Hpair : forall a b0, wfe a -> wfe b0 -> good P3ok
@@ -572,8 +583,8 @@ Proof.
     destruct child; try (match goal with Hx : wfe ?c |- _ => apply (Hpair c Empty Hx I) end; fail).
     rewrite wfe_alt in Hx. apply wfe_forall_of in Hx.
     destruct es as [|a [|b2 [|c3 rest]]].
-    + apply (Hpair (Alt []) Empty); exact I.
-    + inversion Hx; subst. apply (Hpair a (Alt [])); [auto|exact I].
+    + apply (Hpair (Alt []) Empty); triv.
+    + inversion Hx; subst. apply (Hpair a (Alt [])); [auto|triv].
     + inversion Hx as [|? ? Ga Hr2]; subst. inversion Hr2; subst. apply (Hpair a b2); auto.
     + inversion Hx as [|? ? Ga Hr2]; subst. apply (Hpair a (Alt (b2 :: c3 :: rest))); [auto|]. rewrite wfe_alt. now apply wfe_of_forall.
 Qed.
@@ -583,7 +594,7 @@ Lemma parse_all_good : forall f, T_re f /\ T_alt f /\ T_branch f /\ T_piece f /\
 Proof.
   induction f as [|f (I1 & I2 & I3 & I4 & I5 & I6 & I7 & I8)].
   - unfold T_re, T_alt, T_branch, T_piece, T_atom, T_group, T_flags, T_cond.
-    split; [|split; [|split; [|split; [|split; [|split; [|split]]]]]]; intros; exact I.
+    split; [|split; [|split; [|split; [|split; [|split; [|split]]]]]]; intros; triv.
   - split; [now apply stepT_re|]. split; [now apply stepT_alt|]. split; [now apply stepT_branch|].
     split; [now apply stepT_piece|]. split; [now apply stepT_atom|]. split; [now apply stepT_group|].
     split; [now apply stepT_flags|now apply stepT_cond].
@@ -592,7 +603,7 @@ Qed.
 Theorem parse_good : good (fun r : expr * pst => wfe (fst r)) (parse re).
 Proof.
   unfold parse. eapply (good_bind P3ok); [apply (proj1 (parse_all_good _)); constructor|].
-  intros [[ix e] st] [H1 H2]. cbn [fst snd] in *. destruct (ix <? length re); [exact I|]. exact H2.
+  intros [[ix e] st] [H1 H2]. cbn [fst snd] in *. destruct (ix <? length re); [triv|]. exact H2.
 Qed.
 
 End Idx.
@@ -602,4 +613,7 @@ Theorem parse_never_panics re : valid_text re -> parse re <> PPanic.
 Proof. intros (cs & W & ->) H. pose proof (parse_good cs W) as G. rewrite H in G. exact G. Qed.
 
 Theorem parse_wfe re e st : valid_text re -> parse re = POk (e, st) -> wfe e.
+Proof. intros (cs & W & ->) H. pose proof (parse_good cs W) as G. rewrite H in G. exact G. Qed.
+
+Theorem parse_error_position re p er : valid_text re -> parse re = PErr p er -> p <= length re.
 Proof. intros (cs & W & ->) H. pose proof (parse_good cs W) as G. rewrite H in G. exact G. Qed.
